@@ -261,3 +261,7 @@ M("C15", "C15.sinks", "src/scenic/core/specifiers.py", "        self.requiredPro
 M("C14", "C14.runstate", "src/scenic/core/dynamics/scenarios.py", "        self._subScenarios = []\n\n        # Compute time limit", "        # Compute time limit", "c14-stale-subscenarios")
 M("C12", "C12.kinds", "src/scenic/core/dynamics/scenarios.py", "        if ty is not RequirementType.require:\n", "        if False:\n", "c12-dynamic-kinds-undispatched")
 M("C13", "C13.flags", "src/scenic/syntax/compiler.py", "        self.usedBreak, self.usedContinue = oldUsedBreak, oldUsedContinue\n", "", "c13-flags-not-restored")
+
+M("C07", "C07.coerce", "src/scenic/syntax/veneer.py", "    # If the from point is oriented, use its orientation; else assume global coords.\n    # (This must be decided before the point is coerced to a plain vector.)\n    if isA(fromPt, OrientedPoint):\n        orientation = fromPt.orientation\n    else:\n        orientation = Orientation.fromEuler(0, 0, 0)\n\n    fromPt = toVector(fromPt, 'specifier \"beyond X by Y from Z\" with Z not a vector')\n", "    fromPt = toVector(fromPt, 'specifier \"beyond X by Y from Z\" with Z not a vector')\n    if isA(fromPt, OrientedPoint):\n        orientation = fromPt.orientation\n    else:\n        orientation = Orientation.fromEuler(0, 0, 0)\n", "c07-beyond-test-after-coercion")
+M("C07", "C07.facing", "src/scenic/syntax/veneer.py", "                orientation = context.parentOrientation.inverse * headingAtPos", "                orientation = headingAtPos * context.parentOrientation.inverse", "c07-facing-composition-side")
+M("C03", "C03.precision", "src/scenic/core/geometry.py", "    vertices = np.array(vertices, dtype=np.float64)[:, :2]", "    vertices = np.array(vertices, dtype=np.float32)[:, :2]", "c03-float32-triangulation")
